@@ -63,6 +63,9 @@ class Interp:
         from . import sym as _sym
         c = _sym.CTX  # None when called outside a symbolic run (plain concrete call)
         lo = len(getattr(c, "ol_created", ()))
+        # a contract holds for every call: a boolean parameter the harness does not supply
+        # (e.g. one added after the contract was written) takes BOTH values, not its default
+        self._top_call = c is not None
         r = self.run(self.call(fn, list(args), dict(kwargs)))
         if EMITTED is not None and c is not None:
             # names created by ol_name() during this very call (for the temporaries clause of C09)
@@ -99,13 +102,13 @@ class Interp:
             key = stub_key(fn)
             if key in self.stubs:
                 self.stub_calls.append(key)
-                return self.stubs[key](self, *args, **kwargs)
+                return self.call_stub(key, args, kwargs)
             return (yield from self.call_ifunc(ifunc_of(fn), args, kwargs))
         if isinstance(fn, type):
             key = stub_key(fn)
             if key in self.stubs:
                 self.stub_calls.append(key)
-                return self.stubs[key](self, *args, **kwargs)
+                return self.call_stub(key, args, kwargs)
             if self.is_repo_class(fn):
                 return (yield from self.instantiate(fn, args, kwargs))
             return self.call_native(fn, args, kwargs)
@@ -139,7 +142,43 @@ class Interp:
             raise IRaise(TypeError(f"{cls.__name__}() takes no arguments"))
         return obj
 
+    def call_stub(self, key, args, kwargs):
+        """a callee contract stands for the callee only for the call shapes it was written
+        for: any other shape (e.g. a new parameter) is outside the contract -> undecided"""
+        import inspect
+        f = self.stubs[key]
+        try:
+            sig = inspect.signature(f)
+        except ValueError:
+            return f(self, *args, **kwargs)
+        try:
+            sig.bind(self, *args, **kwargs)
+        except TypeError as e:
+            # boolean arguments the contract does not know are dropped: the callee is verified
+            # for BOTH values of every boolean parameter (see call_value), so its contract holds
+            # whatever they are.  Anything else is outside the contract.
+            params = sig.parameters
+            kw2 = {k: v for k, v in kwargs.items() if k in params or not (v is True or v is False)}
+            a2 = list(args)
+            npos = sum(1 for q in params.values() if q.kind in (q.POSITIONAL_ONLY, q.POSITIONAL_OR_KEYWORD)) - 1
+            while len(a2) > npos and (a2[-1] is True or a2[-1] is False) and not any(q.kind == q.VAR_POSITIONAL for q in params.values()):
+                a2.pop()
+            try:
+                sig.bind(self, *a2, **kw2)
+            except TypeError:
+                raise Unsupported(f"call of {key} does not fit the signature its contract was written for ({e})")
+            ctx().log("stub-extra-boolean-arguments-dropped", key)
+            return f(self, *a2, **kw2)
+        return f(self, *args, **kwargs)
+
     def bind_args(self, fn: IFunc, args, kwargs):
+        top, self._top_call = getattr(self, "_top_call", False), False
+
+        def dflt(p, v):
+            if top and (v is True or v is False):
+                import z3
+                return bool(ctx().branch(z3.Bool(f"arg:{fn.qualname}.{p}")))
+            return v
         a = fn.node.args
         params = [x.arg for x in a.posonlyargs + a.args]
         loc = {}
@@ -169,12 +208,12 @@ class Interp:
                 di = i - (len(params) - len(d))
                 if di < 0:
                     raise IRaise(TypeError(f"{fn.name}() missing required positional argument {p!r}"))
-                loc[p] = d[di]
+                loc[p] = dflt(p, d[di])
         for x in a.kwonlyargs:
             if x.arg in kwargs:
                 loc[x.arg] = kwargs.pop(x.arg)
             elif x.arg in fn.kw_defaults:
-                loc[x.arg] = fn.kw_defaults[x.arg]
+                loc[x.arg] = dflt(x.arg, fn.kw_defaults[x.arg])
             else:
                 raise IRaise(TypeError(f"{fn.name}() missing keyword-only argument {x.arg!r}"))
         if a.kwarg is not None:
